@@ -78,6 +78,7 @@ func (m *memtable) add(vector []float32, text string, metadata map[string]interf
 	if m.frozen.Load() {
 		return 0, errMemtableFrozen
 	}
+	verifPoint("memtable.add.locked", m)
 
 	// Add to underlying index
 	id, err := m.index.Add(vector, text, metadata)
@@ -115,6 +116,7 @@ func (m *memtable) addWithID(id uint32, vector []float32, text string, metadata 
 	if m.frozen.Load() {
 		return errMemtableFrozen
 	}
+	verifPoint("memtable.add.locked", m)
 
 	// Add to underlying index
 	if err := m.index.AddWithID(id, vector, text, metadata); err != nil {
